@@ -810,10 +810,17 @@ func main() {
 		childMain()
 		return
 	}
+	if v := os.Getenv("CLIENTSM_REDIRECT"); v != "" {
+		redirectChildMain(int(v[0]-'1'))
+		return
+	}
 	ctx := hx.Start("clientsm")
 	defer ctx.Finish()
 	ctx.Rule("a case = client configuration (protocol automatic/UDP/TCP, credentials, back channels, any-port, 1-2 medias, described or locally built medias) x API sequence x per-request server mutations (status, CSeq, headers, SDP, control attributes, Transport fields, session ids, silence, delay, duplicate, close, partial, non-RTSP bytes, injected frames/requests); distinct non-trivial = distinct (configuration, API sequence, mutation list) with at least one mutation or a non-standard API sequence")
 
+	if ctx.ReplayLines() == nil {
+		redirectStage(ctx)
+	}
 	g := &gen{r: ctx.Rng}
 	if lines := ctx.ReplayLines(); lines != nil {
 		for _, l := range lines {
